@@ -92,10 +92,11 @@ func exprFromText(text string) exprCase {
 }
 
 type conformOpts struct {
-	minW      int                                                                   // conformGen: first weight to enumerate (0 = from 1)
-	skipValue bool                                                                  // only panics / mutation are judged (used by other properties reusing the universe)
-	onResult  func(w int, e *exprCase, doc interface{}, res interface{}, err error) // extra oracle on successful impl results
-	onPair    func(w int, e *exprCase, di int, outs []model.Outcome, res interface{}, err error, pn *impl.Panic)
+	keepAliases bool                                                                  // hand the documents to the implementation as they are (their internal aliasing is the point); no private copies
+	minW        int                                                                   // conformGen: first weight to enumerate (0 = from 1)
+	skipValue   bool                                                                  // only panics / mutation are judged (used by other properties reusing the universe)
+	onResult    func(w int, e *exprCase, doc interface{}, res interface{}, err error) // extra oracle on successful impl results
+	onPair      func(w int, e *exprCase, di int, outs []model.Outcome, res interface{}, err error, pn *impl.Panic)
 }
 
 type conformStats struct {
@@ -134,7 +135,11 @@ func conform(r *harness.Run, exprs []exprCase, docs []interface{}, opts conformO
 	for w := range priv {
 		priv[w] = make([]interface{}, len(docs))
 		for i, d := range docs {
-			priv[w][i] = model.Copy(d)
+			if opts.keepAliases {
+				priv[w][i] = d
+			} else {
+				priv[w][i] = model.Copy(d)
+			}
 		}
 	}
 	stats := make([]conformStats, nw)
@@ -169,7 +174,7 @@ func conform(r *harness.Run, exprs []exprCase, docs []interface{}, opts conformO
 				opts.onPair(w, e, di, outs, res, serr, pn)
 			}
 			// keep the private copy pristine (mutation itself is C06's business)
-			if !model.DeepEqual(priv[w][di], docs[di]) {
+			if !opts.keepAliases && !model.DeepEqual(priv[w][di], docs[di]) {
 				st.mutated++
 				priv[w][di] = model.Copy(docs[di])
 			}
